@@ -266,7 +266,7 @@ def check_site(run, site, order=None, rule='R7'):
                        for x in c.args}
                 if got == bases:
                     run.undecided(rule + 'a', f, site.st, 'vectorised companion pairs the rows through a different '
-                                  'index set: ' + norm(st)[:80])
+                                  'index set: ' + norm(st)[:80], declared=f.rel.startswith('torchclifford'))
                     return
     if comp is None:
         if signless:
